@@ -52,6 +52,25 @@ def success_return_reachable(fn, start_blocks, cut_edges=(), cut_blocks=(), cp=F
     return [r for r in A.return_blocks(fn) if r in R]
 
 
+def success_returns_by_value(fn, start_blocks, cut_edges=(), cut_blocks=()):
+    """Second opinion for success_return_reachable: follows values along each path and keeps only the returns whose result is
+    not known to be a failure on that path (false for a bool function, Err / None for Result / Option).  `x.sync().is_ok()` as
+    the tail expression returns through one block for both outcomes; only the value tells them apart."""
+    rs = []
+    A.reachable_cp(fn, start_blocks, cut_edges=cut_edges, cut_blocks=set(cut_blocks) | failure_blocks(fn), ret_states=rs, max_states=400000)
+    if 'overflow' in rs:
+        return success_return_reachable(fn, start_blocks, cut_edges, cut_blocks)
+    ret_ty = fn.locals[0]
+    out = []
+    for bb, v in rs:
+        if ret_ty == 'bool' and v == 0:
+            continue
+        if v in ('Err', 'None'):
+            continue
+        out.append(bb)
+    return sorted(set(out))
+
+
 def first_line(fn, bb):
     b = fn.bbs[bb]
     if b['s']:
